@@ -1,0 +1,33 @@
+//go:build verif
+
+package internal
+
+// Contracts for the deductive verifier in /verif (govc). Comment-only file: adds no code.
+
+// handleChanges (reload): afterwards the cluster's record for the prefix IS the snapshot that was loaded.
+//@ func (*cluster).handleChanges
+//@   prop C15
+//@   requires c != nil && c.values != nil
+//@   let existed = old(has(c.values, key))
+//@   observe Existed = existed
+//@   observe NKvs = len(kvs)
+//@   replay discov_handleChanges
+//@   loop 1 invariant -1 <= rangeindex && rangeindex < len(kvs) || len(kvs) == 0
+//@   loop 1 invariant fresh(vals) && forall(j, 0, rangeindex + 1, has(vals, kvs[j].Key))
+//@   loop 2 invariant fresh(m) && forall(j, 0, rangeindex + 1, has(m, kvs[j].Key))
+// the record is a map built during this call (so nothing of the previous record survives in it) ...
+//@   ensures [record-replaced] has(c.values, key) && c.values[key] != nil && fresh(c.values[key])
+// ... and it holds every key of the snapshot
+//@   ensures [snapshot-keys-present] forall(j, 0, len(kvs), has(c.values[key], kvs[j].Key))
+
+// handleWatchEvents (incremental): a put stores key->value and is announced to every listener; a delete removes
+// exactly the deleted key and is announced.
+//@ func (*cluster).handleWatchEvents
+//@   prop C15
+//@   opaque Errorf
+//@   requires c != nil && c.values != nil
+//@   let ev = at_head(events[rangeindex + 1])
+//@   let k = bytes2str(ev.Kv.Key)
+//@   loop 1 iteration-ensures [put-stored] ev.Type == 0 ==> has(c.values, key) && has(c.values[key], k) && c.values[key][k] == bytes2str(ev.Kv.Value)
+//@   loop 1 iteration-ensures [delete-removed] ev.Type == 1 && at_head(has(c.values, key)) ==> !has(c.values[key], k)
+//@   loop 1 iteration-ensures [delete-only-that-key] ev.Type == 1 && at_head(has(c.values, key)) ==> forallk(s, string, s != k ==> has(c.values[key], s) == at_head(has(c.values[key], s)))
